@@ -3,7 +3,8 @@
 Enumerated lattice (DESIGN 4/C09): geometry family of checks/splib.py (quick 6, thorough all 432, built through newSP /
 JSON+loadSP / makeSP) x base placement x spinCustom x relative top-plate pose.
 
-Part "ik"  : bases {I, B1 (moved there), BS (seed-generic, constructed there)} x spins x the full 3^6 = 729 pose grid.
+Part "ik"  : bases {I, B1 (moved there), BS (seed-generic, constructed there)} x spins x the full 3^6 = 729 pose grid;
+             plus the one seed-generic geometry 'seedgeo<seed>'.
    ik_distance     lengths returned by IK (protect=True on every pose; the default unprotected call on every in-workspace
                    pose) equal || T_top t_i - T_bot b_i || to 1e-9, with the plate-fixed points read ONCE at the neutral
                    pose before any re-spin (and rotated by the oracle for re-spun platforms)
@@ -11,7 +12,8 @@ Part "ik"  : bases {I, B1 (moved there), BS (seed-generic, constructed there)} x
    base_placement  the platform stands where it was put (constructor base / move): bottom pose = B, top pose = B * neutral
    respin_points   after spinCustom both plate poses are unchanged and the plate-fixed points are the old ones rotated
                    about the plate z axis - for a re-spin at the neutral pose (pose 0) and for a re-spin applied while
-                   the platform stands at an in-workspace pose of a 27-pose sub-grid
+                   the platform stands at one of the 26 non-neutral poses of a 27-pose sub-grid (x, rx=ry, rz), when
+                   the pose is inside the workspace before and after the re-spin
 Part "fk"  : FIXED lattice (no seed element): bases {I, B1} x spins x the 81-pose sub-grid x fk_mode {1, 0}; only poses
              inside the workspace (IK with protect=True, then validate(donothing=True) accepts the state as it stands).
    fk_roundtrip    FK(lengths) on a fresh platform at the neutral pose returns the pose (translation, and rotation angle
@@ -27,6 +29,10 @@ Part "fk"  : FIXED lattice (no seed element): bases {I, B1} x spins x the 81-pos
                    never flip).  A per-case list cannot be stable for that class, so all its failures carry the one
                    class id "fsolve-zero-rotation-start" (listed); the fsolve path is decided at the rotated base.
    raised          a library call raised on a valid input
+
+Quick: 6 geometries, spins {none, 0.4 rad or -60 deg alternating by geometry} (a subset of the thorough lattice);
+thorough: all 432 geometries x all three spins.  Both tiers stop at a wall-clock cap (VERIF_BUDGET_S, default 300 / 840 s)
+and then report the unfinished index ranges with exhaustive:false.
 
 `VERIF_C09_WRITE_LIST=1 ./check C09 --tier thorough` regenerates the case list (never written otherwise; =merge unions
 with the entries already there).  Generator mode evaluates the FK part only, without the time cap.
@@ -53,7 +59,7 @@ EXP_CUTOFF = 1e-6        # NearZero() in the library's MatrixExp3
 RESPIN_AT = tuple(i for i in splib.FK_SUBGRID if splib.pose_digits(i)[2] == 0 and i != 0)
 
 
-def plan(tier):
+def plan(tier, seed=0):
     if tier == "thorough":
         gids = [g.gid for g in splib.family()]
         spins = list(splib.SPINS)
@@ -63,6 +69,7 @@ def plan(tier):
         spins = ["s0", "s0.4 / s-60d alternating by geometry"]
         sp = {g: ["s0", "s0.4" if k % 2 == 0 else "s-60d"] for k, g in enumerate(gids)}     # both argument forms of spinCustom
     ik_blocks = [(g, b, s) for g in gids for b in ("I", "B1", "BS") for s in sp[g]]
+    ik_blocks += [("seedgeo%d" % seed, b, s) for b in ("I", "B1", "BS") for s in ("s0", "s0.4")]     # the seed-generic geometry
     fk_blocks = [(g, b, s) for g in gids for b in ("I", "B1") for s in sp[g]]
     return gids, spins, ik_blocks, fk_blocks
 
@@ -318,7 +325,7 @@ def warm():
 
 
 def run(ctx):
-    gids, spins, ik_blocks, fk_blocks = plan(ctx.tier)
+    gids, spins, ik_blocks, fk_blocks = plan(ctx.tier, ctx.seed)
     warm()
     ctx.log("kernels warm")
     budget = float(os.environ.get("VERIF_BUDGET_S", "0") or 0) or (840.0 if ctx.tier == "thorough" else 300.0)
@@ -326,12 +333,13 @@ def run(ctx):
     nfk = len(fk_blocks) * len(splib.FK_SUBGRID)
     nik = len(ik_blocks) * splib.GRID_N
     wl = os.environ.get("VERIF_C09_WRITE_LIST")
-    generator = wl in ("1", "merge")       # generator mode: the FK part only, without a time cap
+    generator = wl in ("1", "merge") or bool(wl and ctx.tier == "thorough")   # generator mode: the FK part only, no time cap
+    parts = (os.environ.get("VERIF_C09_PARTS") or "fk,ik").split(",")      # development aid; a skipped part is reported unfinished
     with ctx.pool() as pool:
         w = pool.workers
-        m_fk = _run_part(ctx, pool, "work_fk", nfk, fk_blocks, float("inf") if generator else deadline,
+        m_fk = _run_part(ctx, pool, "work_fk", nfk, fk_blocks, 0.0 if "fk" not in parts else (float("inf") if generator else deadline),
                          w * (24 if ctx.tier == "thorough" else 6), "fk")
-        m_ik = _run_part(ctx, pool, "work_ik", nik, ik_blocks, 0.0 if generator else deadline,
+        m_ik = _run_part(ctx, pool, "work_ik", nik, ik_blocks, 0.0 if (generator or "ik" not in parts) else deadline,
                          w * (12 if ctx.tier == "thorough" else 4), "ik")
     if wl:
         # "1": (re)write the committed list; "merge": union with the entries already there (several repaired tree
